@@ -51,7 +51,9 @@ async fn sync_traced(w: &World, k: usize, toks: &mut Tokens, corr: &mut Corr, re
 pub async fn run_case(backend: &str, seed: u64, rep: &mut Report, corr: &mut Corr) -> anyhow::Result<()> {
     let mut rng = Rng::new(seed);
     let mut toks = Tokens::default();
-    let n_dev = rng.range(2, 3) as usize;
+    // pre-history: none / one device / all devices edited (no conflict, soft conflict) / server ahead / stale ancestor
+    let pre = *rng.pick(&[0u64, 1, 2, 2, 3, 3, 3, 4, 4, 4]);
+    let n_dev = if pre == 4 { 3 } else { rng.range(2, 3) as usize };
     let w = World::new(n_dev, backend).await?;
     let mut script: Vec<String> = vec![format!("world devices={n_dev} backend={backend}")];
     // shared pool of secrets created before divergence
@@ -71,8 +73,25 @@ pub async fn run_case(backend: &str, seed: u64, rep: &mut Report, corr: &mut Cor
     // offline edits
     let mut committed: BTreeMap<String, Vec<(String, i128)>> = BTreeMap::new();
     let mut committed_by: BTreeMap<String, Vec<(usize, (String, i128))>> = BTreeMap::new();
+    if pre == 4 {
+        // stale ancestor: d1 makes an old offline edit; d0 edits and syncs; d2 catches up; d0 edits and syncs again;
+        // d2 edits offline.  server [..x,s2], d1 [..a1], d2 [..x,b1]: when d1's event is merged in front of x,
+        // d2's common ancestor with the server lies before the event x both hold.
+        for (k, label, sync_after) in [(1usize, "a1", vec![]), (0, "x", vec![0usize, 2]), (0, "s2", vec![0]), (2, "b1", vec![])] {
+            let before = w.device_logs(k).await;
+            { let mut a = w.devices[k].lock().await; let (m, s) = note(&format!("{label}-{}", rng.below(1000)), "x"); let _ = a.create_secret(m, s, Default::default()).await; }
+            script.push(format!("edit d{k} create ({label})"));
+            let after = w.device_logs(k).await;
+            for (name, recs) in &after {
+                let b = before.get(name).map(|v| v.len()).unwrap_or(0);
+                for r in recs.iter().skip(b) { committed.entry(name.clone()).or_default().push(r.clone()); committed_by.entry(name.clone()).or_default().push((k, r.clone())); }
+            }
+            for j in sync_after { let r = w.sync(j).await; script.push(format!("sync d{j} -> {:?}", r)); }
+        }
+        rep.count("pre-history:stale-ancestor");
+    }
     for k in 0..n_dev {
-        let n_edits = rng.range(0, 4);
+        let n_edits = if pre == 4 { rng.range(0, 1) } else { rng.range(0, 4) };
         let before = w.device_logs(k).await;
         for _ in 0..n_edits {
             let mut a = w.devices[k].lock().await;
@@ -300,16 +319,18 @@ async fn merge_corr(seed: u64, n: usize, rep: &mut Report, corr: &mut Corr) {
             Ok(AutoMergeStatus::PushRemote(v)) => format!("push-remote {}", show(&v.iter().map(|x| (crate::world::nanos(x.time()), x.event_bytes()[0])).collect())),
             Err(e) => format!("error {e}"),
         };
-        // C05 on the implementation: in the diverged branch the result is local ++ remote, stably sorted by time
+        // C05 on the implementation: in the diverged branch the result is (local events the remote lacks) ++ remote, stably sorted by time
         if let Some(rest) = out.strip_prefix("push-remote ") {
             let got: Vec<String> = if rest == "-" { vec![] } else { rest.split(',').map(|x| x.to_string()).collect() };
-            let mut want: Vec<(i128, u8, usize)> = l.iter().chain(r.iter()).enumerate().map(|(i, (t, b))| (*t, *b, i)).collect();
+            // an event (commit) the remote already has is not added again
+            let rset: std::collections::BTreeSet<u8> = r.iter().map(|x| x.1).collect();
+            let mut want: Vec<(i128, u8, usize)> = l.iter().filter(|x| !rset.contains(&x.1)).chain(r.iter()).enumerate().map(|(i, (t, b))| (*t, *b, i)).collect();
             want.sort_by(|a, b| a.0.cmp(&b.0).then(a.2.cmp(&b.2)));
             let want: Vec<String> = want.iter().map(|(t, b, _)| format!("{}/{:02x}", t, b)).collect();
             if got != want {
                 let mut g = got.clone(); let mut w2 = want.clone(); g.sort(); w2.sort();
                 let class = if g != w2 { if g.len() < w2.len() { "c05-merge-patches-loses-records" } else { "c05-merge-patches-adds-records" } } else { "c05-merge-patches-wrong-order" };
-                rep.spec_fail(class, json!({"op": op, "got": got, "want": want}), "merge_patches result is not the stable time-sorted union of both suffixes");
+                rep.spec_fail(class, json!({"op": op, "got": got, "want": want}), "merge_patches result is not the stable time-sorted union of both suffixes (each event once)");
             }
         }
         rep.count(out.split(' ').next().unwrap());
@@ -326,7 +347,9 @@ pub async fn run_concurrent_case(backend: &str, seed: u64, rep: &mut Report) -> 
     use sos_protocol::{AsConflict, SyncOptions};
     use sos_remote_sync::AutoMerge;
     let mut rng = Rng::new(seed ^ 0xC09);
-    let n_dev = rng.range(2, 3) as usize;
+    // pre-history: none / one device / all devices edited (no conflict, soft conflict) / server ahead / stale ancestor
+    let pre = *rng.pick(&[0u64, 1, 2, 2, 3, 3, 3, 4, 4, 4]);
+    let n_dev = if pre == 4 { 3 } else { rng.range(2, 3) as usize };
     let w = World::new(n_dev, backend).await?;
     let mut script: Vec<String> = vec![format!("world devices={n_dev} backend={backend}")];
     let mut pool: Vec<SecretId> = vec![];
@@ -335,8 +358,6 @@ pub async fn run_concurrent_case(backend: &str, seed: u64, rep: &mut Report) -> 
         for i in 0..2 { let (m, s) = note(&format!("base{i}"), "v0"); pool.push(a.create_secret(m, s, Default::default()).await?.id); }
     }
     for _ in 0..2 { for k in 0..n_dev { let _ = w.sync(k).await; } }
-    // pre-history: none / one device / all devices edited (no conflict, soft conflict)
-    let pre = *rng.pick(&[0u64, 1, 2, 2, 3, 3, 3]);
     let mut committed: BTreeMap<String, Vec<String>> = BTreeMap::new();
     if pre == 3 {
         // the server is ahead: device 0 edits and syncs first, the others then edit offline
@@ -346,8 +367,19 @@ pub async fn run_concurrent_case(backend: &str, seed: u64, rep: &mut Report) -> 
         let _ = w.sync(0).await;
         script.push("edit d0 create + sync (server ahead)".into());
     }
+    if pre == 4 {
+        // d1 edits offline first (oldest event, never sees what follows); d0 edits and syncs; d2 catches up;
+        // d0 edits and syncs again; d2 edits offline: server [..x,s2], d1 [..a1], d2 [..x,b1], d0 in sync
+        { let mut a = w.devices[1].lock().await; let (m, s) = note(&format!("a1-{}", rng.below(100000)), "x"); let _ = a.create_secret(m, s, Default::default()).await; }
+        { let mut a = w.devices[0].lock().await; let (m, s) = note(&format!("x-{}", rng.below(100000)), "x"); let _ = a.create_secret(m, s, Default::default()).await; }
+        let _ = w.sync(0).await; let _ = w.sync(2).await;
+        { let mut a = w.devices[0].lock().await; for _ in 0..rng.range(1, 2) { let (m, s) = note(&format!("s2-{}", rng.below(100000)), "x"); let _ = a.create_secret(m, s, Default::default()).await; } }
+        let _ = w.sync(0).await;
+        { let mut a = w.devices[2].lock().await; let (m, s) = note(&format!("b1-{}", rng.below(100000)), "x"); let _ = a.create_secret(m, s, Default::default()).await; }
+        script.push("pre-history stale-ancestor: d1 old offline edit; d0 edit+sync; d2 sync; d0 edit+sync; d2 offline edit".into());
+    }
     for k in 0..n_dev {
-        if pre == 0 || (pre == 1 && k > 0) || (pre == 3 && k == 0) { continue; }
+        if pre == 4 || pre == 0 || (pre == 1 && k > 0) || (pre == 3 && k == 0) { continue; }
         let before = w.device_logs(k).await;
         let mut a = w.devices[k].lock().await;
         for _ in 0..rng.range(1, 3) {
@@ -361,7 +393,7 @@ pub async fn run_concurrent_case(backend: &str, seed: u64, rep: &mut Report) -> 
         let after = w.device_logs(k).await;
         for (name, recs) in &after { let b = before.get(name).map(|v| v.len()).unwrap_or(0); for r in recs.iter().skip(b) { committed.entry(name.clone()).or_default().push(r.0.clone()); } }
     }
-    rep.count(&format!("pre-history:{}", ["none", "one-device", "all-devices", "server-ahead-others-edited"][pre as usize]));
+    rep.count(&format!("pre-history:{}", ["none", "one-device", "all-devices", "server-ahead-others-edited", "stale-ancestor"][pre as usize]));
     // concurrent sync calls under the scheduler
     let (tx, mut rx) = tokio::sync::mpsc::unbounded_channel::<Waiting>();
     let mut handles = vec![];
@@ -386,6 +418,7 @@ pub async fn run_concurrent_case(backend: &str, seed: u64, rep: &mut Report) -> 
     let deadline = std::time::Instant::now() + std::time::Duration::from_secs(40);
     let mut hang = false;
     let mut steps = 0;
+    let mut last: Option<usize> = None;
     'outer: loop {
         for k in 0..n_dev {
             while !done[k] && waiting[k].is_none() {
@@ -399,7 +432,9 @@ pub async fn run_concurrent_case(backend: &str, seed: u64, rep: &mut Report) -> 
         }
         let ready: Vec<usize> = (0..n_dev).filter(|k| waiting[*k].is_some()).collect();
         if ready.is_empty() { break; }
-        let k = *rng.pick(&ready);
+        // bursts: keep releasing the same device's requests with probability 2/3
+        let k = match last { Some(l) if ready.contains(&l) && rng.chance(2, 3) => l, _ => *rng.pick(&ready) };
+        last = Some(k);
         let wt = waiting[k].take().unwrap();
         let before = w.server_logs().await;
         script.push(format!("step d{k}:{}", wt.request));
@@ -428,7 +463,10 @@ pub async fn run_concurrent_case(backend: &str, seed: u64, rep: &mut Report) -> 
             // accepted events dropped by this request
             let newset: std::collections::BTreeSet<&String> = new.iter().map(|r| &r.0).collect();
             let dropped: Vec<&String> = old.iter().map(|r| &r.0).filter(|c| !newset.contains(c)).collect();
-            if !dropped.is_empty() {
+            if !dropped.is_empty() && new.len() == common {
+                // the log is a proper prefix of what it was: the request rewound and applied nothing (a refused patch must roll back)
+                rep.spec_fail("c09-refused-patch-left-server-log-rewound", json!({"case_seed": seed, "backend": backend, "script": script, "log": name, "request": req, "dropped": dropped.len()}), "a request that applied no patch left the server log truncated: events the server had accepted are gone");
+            } else if !dropped.is_empty() {
                 rep.spec_fail("c09-accepted-event-dropped-by-stale-rewind", json!({"case_seed": seed, "backend": backend, "script": script, "log": name, "request": req, "dropped": dropped.len()}), "a rewind-and-patch request removed events the server had accepted from another device and did not re-apply them");
             }
         }
@@ -492,7 +530,7 @@ pub fn run_sched(cli: &Cli) {
         }
     }
     rep.rule = format!("{n} cases per backend: 2-3 real devices whose sync calls run concurrently against one real server storage; the harness releases one request \
-        (status / sync / scan / diff / patch) at a time in a generated order; pre-histories: no edits, one device edited (fast-forward), all devices edited (soft conflict, distinct events); \
+        (status / sync / scan / diff / patch) at a time in a generated order; pre-histories: no edits, one device edited (fast-forward), all devices edited (soft conflict, distinct events), server ahead, stale ancestor (an old offline edit of a third device is merged before another device's ancestor); bursty schedules; \
         then two sequential rounds; non-trivial = some device had edits");
     rep.write(&cli.out);
 }
